@@ -4,7 +4,7 @@
    depend on the order in which they arrive (any schedule of the parallel collect).
    PARTIAL (see DESIGN): absence of shared mutable state between threads is a runtime fact,
    covered by the multi-pool differential runs of the check. *)
-From RV Require Import Model.Node Proofs.SortFacts Proofs.InventoryFacts.
+From RV Require Import Model.Node Proofs.SortFacts Proofs.InventoryFacts Proofs.NodeLocal.
 From Coq Require Import Permutation.
 
 Theorem C12_aggregation_is_order_independent :
@@ -37,3 +37,21 @@ Proof.
   destruct Hin as [Hin|Hin]; [injection Hin as <- <-; exact E | apply IH, Hin].
 Qed.
 Eval cbv in "ASSUMPTIONS-OF C12_entry_is_the_single_render"%string. Print Assumptions C12_entry_is_the_single_render.
+
+(** "Rendering one node never influences another": what render_node returns for a node depends on
+    the table of discovered nodes only through that node's own entry, and on the table of classes
+    only through the lookup of class names -- the other nodes, and the order of either table, play
+    no part (and the model's render is a function: repeating it repeats the result). *)
+Theorem C12_render_node_is_local :
+  forall f fi cfg root ntbl ntbl' ctbl ctbl' name,
+    find_node name ntbl = find_node name ntbl' -> (forall c, find_class c ctbl = find_class c ctbl') ->
+    render_node f fi cfg root ntbl ctbl name = render_node f fi cfg root ntbl' ctbl' name.
+Proof. exact render_node_is_local. Qed.
+Eval cbv in "ASSUMPTIONS-OF C12_render_node_is_local"%string. Print Assumptions C12_render_node_is_local.
+
+Theorem C12_other_nodes_do_not_matter :
+  forall f fi cfg root ntbl ctbl name e,
+    ne_name e <> name ->
+    render_node f fi cfg root (e :: ntbl) ctbl name = render_node f fi cfg root ntbl ctbl name.
+Proof. exact other_nodes_do_not_matter. Qed.
+Eval cbv in "ASSUMPTIONS-OF C12_other_nodes_do_not_matter"%string. Print Assumptions C12_other_nodes_do_not_matter.
